@@ -14,6 +14,7 @@ import resource
 import shutil
 import subprocess
 import sys
+import threading
 import time
 from pathlib import Path
 
@@ -45,8 +46,8 @@ class Inconclusive(Exception):
 # --------------------------------------------------------------------------------------
 class Job:
     def __init__(self, harness, desc, *, module=None, unwind=None, unwindset=None, checks="all",
-                 timeout=600, mem_gb=12, params=None, witness=True, gen=None, extra_cbmc=None,
-                 min_covers=1):
+                 timeout=600, mem_gb=6, params=None, witness=True, gen=None, extra_cbmc=None,
+                 min_covers=1, weight_gb=None):
         self.harness = harness          # function name of the #[kani::proof]
         self.module = module            # rust module under verif:: (defaults to property's main module)
         self.desc = desc
@@ -60,6 +61,8 @@ class Job:
         self.gen = gen                  # rust source text of a generated harness instance (or None)
         self.extra_cbmc = extra_cbmc or []
         self.min_covers = min_covers
+        # expected resident memory, used for admission control (mem_gb is the hard cap)
+        self.weight_gb = weight_gb if weight_gb is not None else max(1.0, mem_gb / 4.0)
         # results
         self.result = None
 
@@ -636,8 +639,26 @@ def run_property(prop, tier, seed):
         par = int(os.environ.get("VERIF_JOBS", getattr(prop, "PARALLEL", NCPU)))
         # longest first
         order = sorted(range(len(jobs)), key=lambda i: -jobs[i].timeout)
+        # admission control: the sum of the memory caps of running jobs stays within the budget (no swap on this machine)
+        budget = float(os.environ.get("VERIF_MEM_GB", "52"))
+        lock = threading.Condition()
+        used = [0.0]
+
+        def admitted(job, meta):
+            need = min(job.weight_gb, budget)
+            with lock:
+                while used[0] + need > budget:
+                    lock.wait()
+                used[0] += need
+            try:
+                return run_job(job, meta, work)
+            finally:
+                with lock:
+                    used[0] -= need
+                    lock.notify_all()
+
         with concurrent.futures.ThreadPoolExecutor(max_workers=par) as ex:
-            futs = {ex.submit(run_job, jobs[i], table[names[i]], work): i for i in order}
+            futs = {ex.submit(admitted, jobs[i], table[names[i]]): i for i in order}
             for f in concurrent.futures.as_completed(futs):
                 i = futs[f]
                 r = jobs[i].result
